@@ -168,6 +168,9 @@ func NewEmptyConfig() Configuration {
 // within `target` is left unmodified. However, configuration of higher scoped fields will still be attempted.
 func (c Configuration) deserializeConfigInto(target interface{}, namespace string) error {
 	if tree := c.tree.Get(namespace); tree != nil {
+		if _, ok := tree.(*toml.Tree); !ok {
+			return fmt.Errorf("expected [%s] to be a TOML table but found a value of type %T", namespace, tree)
+		}
 		err := tree.(*toml.Tree).Unmarshal(target)
 		if err != nil {
 			return err
